@@ -100,8 +100,8 @@ func sweepSeq(r *h.Run) {
 						if fk == "silent" && !(remote || (target == "fetch" && strings.HasPrefix(tr.Path, "/tmp/"))) {
 							continue
 						}
-						// quick tier: every operation on the remote entry; a seeded seventh of the purely local ones (half of them for the write-specific faults)
-						thin := 7
+						// quick tier: every operation on the remote entry; a seeded eighth of the purely local ones (half of them for the write-specific faults)
+						thin := 8
 						if fk != "err" && fk != "crash" {
 							thin = 2 // the faults specific to writes have few candidates
 						}
